@@ -55,6 +55,7 @@ class Frame:
     kind: str                                       # let | with | rec | plain
     bindings: dict = field(default_factory=dict)    # name -> int | Ref | Inherit | InheritFrom | SetExpr
     env_name: str | None = None                     # with: environment given by a name
+    notes: dict = field(default_factory=dict)       # name -> text of a block comment before the value
 
 
 @dataclass
@@ -63,6 +64,7 @@ class SetExpr:
     rec: bool
     bindings: dict
     inline: bool = False   # written on one line: `rec { x = a; a = 1; }` (only flat sets)
+    notes: dict = field(default_factory=dict)   # name -> text of a block comment before the value
 
 
 @dataclass
@@ -285,18 +287,20 @@ def defining_site(prog: Program, path: list[str], mode: str = "nix"):
 
 # ----------------------------------------------------------------------------- rendering
 
-def _render_bindings(b: dict, indent: int) -> str:
+def _render_bindings(b: dict, indent: int, notes: dict | None = None) -> str:
     pad = " " * indent
     out = []
+    notes = notes or {}
     for k, v in b.items():
+        note = f"/* {notes[k]} */ " if k in notes else ""
         if isinstance(v, Inherit):
             out.append(f"{pad}inherit {k};")
         elif isinstance(v, InheritFrom):
             out.append(f"{pad}inherit ({v.src}) {k};")
         elif isinstance(v, int):
-            out.append(f"{pad}{k} = {v};")
+            out.append(f"{pad}{k} = {note}{v};")
         elif isinstance(v, Ref):
-            out.append(f"{pad}{k} = {v.name};")
+            out.append(f"{pad}{k} = {note}{v.name};")
         elif v.wrappers:
             out.append(f"{pad}{k} =\n{pad}  {_render_setexpr(v, indent + 2)};")
         else:
@@ -310,13 +314,14 @@ def _render_setexpr(s: SetExpr, indent: int) -> str:
     out = ""
     for fr in s.wrappers:
         if fr.kind == "let":
-            out += "let\n" + _render_bindings(fr.bindings, indent + 2) + f"\n{pad}in\n{pad}"
+            out += "let\n" + _render_bindings(fr.bindings, indent + 2, fr.notes) + f"\n{pad}in\n{pad}"
         else:
             env = fr.env_name if fr.env_name is not None else _inline_set(fr.bindings)
             out += f"with {env};\n{pad}"
-    if s.inline and not s.wrappers and s.bindings and all(isinstance(v, (int, Ref)) for v in s.bindings.values()):
+    if s.inline and not s.wrappers and not s.notes and s.bindings \
+            and all(isinstance(v, (int, Ref)) for v in s.bindings.values()):
         return ("rec " if s.rec else "") + _inline_set(s.bindings)
-    body = _render_bindings(s.bindings, indent + 2)
+    body = _render_bindings(s.bindings, indent + 2, s.notes)
     out += ("rec " if s.rec else "") + "{\n" + body + f"\n{pad}}}"
     return out
 
@@ -411,7 +416,15 @@ def gen_setexpr(rng: random.Random, depth: int, set_names: list[str], counter: l
             bindings[f"n{counter[0]}"] = gen_setexpr(rng, depth + 1, local_sets, counter)
     items = list(bindings.items())
     rng.shuffle(items)
-    return SetExpr(wrappers, rec, dict(items), inline=rng.random() < 0.3)
+    out = SetExpr(wrappers, rec, dict(items), inline=rng.random() < 0.3)
+    # block comments in front of some integer values (trivia that a write-through must keep in
+    # place and must not carry elsewhere)
+    for holder in [out] + [fr for fr in wrappers if fr.kind == "let"]:
+        for k, v in holder.bindings.items():
+            if isinstance(v, int) and rng.random() < 0.12:
+                counter[0] += 1
+                holder.notes[k] = f"k{counter[0]}"
+    return out
 
 
 def count_bindings(s: SetExpr) -> int:
